@@ -75,7 +75,7 @@ Proof.
   intros s sp v HR. unfold step_sim0. cbn [spec_step index_limit].
   assert (HV : r_vote (m_rs s) = sp_vote sp) by (rewrite (R0_rs _ _ HR); reflexivity).
   unfold rs_validate. rewrite HV.
-  destruct (opair_leb (sp_vote sp) (Some v)) eqn:E.
+  destruct (ovote_accepts (sp_vote sp) v) eqn:E.
   - split; [reflexivity|]. split; [reflexivity|]. intros c seg.
     rewrite sm_apply_vote by (unfold rs_validate; rewrite HV, E; reflexivity).
     eapply R0_same; [exact HR|reflexivity|reflexivity|reflexivity|].
